@@ -1,6 +1,7 @@
 package world
 
 import (
+	samlxml "github.com/zitadel/saml/pkg/provider/xml"
 	"context"
 	"crypto/rsa"
 	"errors"
@@ -97,6 +98,7 @@ var ThreadID = func() int { return -1 }
 // request context): nil / missing entries fall back to the store-wide tables.
 type Tenant struct {
 	RespKey *key.CertificateAndKey
+	Apps    map[string]string                           // application id -> entity ID (the same application id may name another SP in another tenant)
 	Logins  map[string]*User                            // login name -> user
 	Users   map[string]*User                            // user id -> user
 	SPs     map[string]*serviceprovider.ServiceProvider // entityID -> registration
@@ -184,6 +186,34 @@ func (s *Store) RegisterSP(appID string, metadata []byte) (*serviceprovider.Serv
 	s.apps[appID] = sp.GetEntityID()
 	s.mu.Unlock()
 	return sp, nil
+}
+
+// UpdateSPInPlace is what an integrator does whose registry keeps the *ServiceProvider it once built with NewServiceProvider and, when
+// the SP publishes new metadata, replaces the exported Metadata field of that SAME object (legal: the field is exported and every
+// handler reads it). mode "replace": sp.Metadata = newly parsed document; "edit": the slices / values of the existing document are
+// overwritten in place. Returns false when the entity is not registered.
+func (s *Store) UpdateSPInPlace(entityID string, metadata []byte, mode string) bool {
+	vhook.Point("env.UpdateSPInPlace")
+	s.mu.Lock()
+	defer s.mu.Unlock()
+	sp, ok := s.sps[entityID]
+	if !ok {
+		return false
+	}
+	md, err := samlxml.ParseMetadataXmlIntoStruct(metadata)
+	if err != nil {
+		panic(err)
+	}
+	if mode == "edit" && sp.Metadata != nil && sp.Metadata.SPSSODescriptor != nil && md.SPSSODescriptor != nil {
+		d, n := sp.Metadata.SPSSODescriptor, md.SPSSODescriptor
+		d.AssertionConsumerService = n.AssertionConsumerService
+		d.SingleLogoutService = n.SingleLogoutService
+		d.KeyDescriptor = n.KeyDescriptor
+		d.AuthnRequestsSigned = n.AuthnRequestsSigned
+		return true
+	}
+	sp.Metadata = md
+	return true
 }
 
 // UnregisterSP removes the service provider (environment event: SP deleted by the operator).
@@ -496,8 +526,14 @@ func (s *Store) GetEntityByID(ctx context.Context, entityID string) (*servicepro
 	return sp, nil
 }
 
-func (s *Store) GetEntityIDByAppID(_ context.Context, appID string) (string, error) {
+func (s *Store) GetEntityIDByAppID(ctx context.Context, appID string) (string, error) {
 	idx, f := s.enter("GetEntityIDByAppID", appID)
+	if t := s.tenant(ctx); t != nil && t.Apps != nil && f == "" {
+		if e, ok := t.Apps[appID]; ok {
+			s.result(idx, e, nil)
+			return e, nil
+		}
+	}
 	if f == FaultErrWithValue {
 		err := s.faultErr(f)
 		s.result(idx, "", err)
